@@ -3,7 +3,7 @@ import framework as fw
 import kcommon as kc
 
 PID = "C17"
-MODEL_TARGETS = ["Proofs/Eval.vo", "Amount/F64.vo", "Amount/Dec.vo", "Gen/Catalogue.vo", "Rt/Serde.vo"]
+MODEL_TARGETS = ["Proofs/Eval.vo", "Amount/F64.vo", "Amount/Dec.vo", "Gen/Catalogue.vo", "Rt/Serde.vo", "Amount/DecCodec.vo"]
 PROOF_TARGETS = ["Props/C17.vo", "Pinned/C17.vo"]
 PROPS = "Props/C17.v"
 COQCHK = ["QV.Props.C17"]
@@ -13,10 +13,10 @@ TRUSTED_BASE = [
     "Rt/Serde.v (hand): model of the serde data model, of derive on a field-less enum / a named-field struct, of f64 as a JSON number and Decimal as a string - MODELLED, validated against serde_json through the harness on every run",
 ]
 LEVEL = ("Coq theorems (Props/C17.v) over the model of the serde data model, generic in the amount type's codec: a unit serialises as its variant name and deserialises to the identical unit; a value (both struct shapes) "
-         "deserialises to the identical value whenever the amount codec round-trips (hypothesis: trivial for f64 in the value tree - theorem; for the decimal string form validated by testing, not proved); different values have "
+         "deserialises to the identical value whenever the amount codec round-trips (discharged for both amount types: trivial for f64 in the value tree, and for the decimal string form the theorem C17_decimal_codec: from_str (String::from d) = d for every decimal with 0..18 fractional digits and coefficient other than i128::MIN, over the model of fpdec's two conversions); different values have "
          "different serialisations. Computed for every definition of the tree: both derives present on enum and struct, expected fields, distinct variants; the serde feature enables dep:serde and fpdec's serde-as-str. "
          "Partial: serde/serde_json/fpdec's string conversion are modelled; the tie is the correspondence on all units x adversarial amounts through the value tree and through JSON text.")
-LEVEL_NOTE = "Trusted: Coq kernel, translator rs2j+j2v, the hand model Rt/Serde.v (validated against serde_json each run); decimal codec round trip is an explicit hypothesis. No axioms."
+LEVEL_NOTE = "Trusted: Coq kernel, translator rs2j+j2v, the hand model Rt/Serde.v (validated against serde_json each run); the decimal codec round trip is a theorem about the model of fpdec's String::from / from_str (Amount/DecStr.v, Amount/DecCodec.v). No axioms."
 ASSUMPTIONS = [
     "serde_derive generates the standard externally-tagged representation (no serde attributes on the generated items - the translator would show them in the struct/enum attributes)",
     "serde_json prints a finite f64 with ryu (shortest round-tripping digits); JSON text is read back with an exactly rounding parser (serde_json's float_roundtrip feature, as the property demands; its default parser is off by 1 ulp on some inputs); fpdec parses what it prints",
